@@ -200,7 +200,13 @@ def control_types_family(ctx: t.Any) -> None:
     res = L.LDAPResult(L.LDAPResultCode.SUCCESS, "", "", None)
     choices = list(L.ControlOptions().choices)
     known = {c.control_type: c for c in choices if isinstance(getattr(c, "control_type", None), str) and _OID.match(c.control_type)}
-    types = ["", "not-an-oid", "1", "1.2.840.113556.1.4", "1.2.840.113556.1.4.417.1", "2.16.840.1.113730.3.4.2", "1.2.840.113556.1.4.805"] + sorted(known)
+    # control types other LDAP software knows (a library that learns one of them tomorrow must still hand back what it was sent):
+    # ManageDsaIT, TreeDelete, server-side sort request / response, VLV request, SD flags, extended DN, proxied authorisation,
+    # pre-read / post-read, assertion, matched values, subentries, DirSync, password policy
+    wellknown = ["2.16.840.1.113730.3.4.2", "1.2.840.113556.1.4.805", "1.2.840.113556.1.4.473", "1.2.840.113556.1.4.474", "2.16.840.1.113730.3.4.9", "1.2.840.113556.1.4.801",
+                 "1.2.840.113556.1.4.529", "2.16.840.1.113730.3.4.18", "1.3.6.1.1.13.1", "1.3.6.1.1.13.2", "1.3.6.1.1.12", "1.2.826.0.1.3344810.2.3", "1.3.6.1.4.1.4203.1.10.1",
+                 "1.2.840.113556.1.4.841", "1.3.6.1.4.1.42.2.27.8.5.1"]  # fmt: skip
+    types = ["", "not-an-oid", "1", "1.2.840.113556.1.4", "1.2.840.113556.1.4.417.1"] + wellknown + sorted(known)
     for ct in types:
         own = []
         if ct in known:
@@ -210,7 +216,7 @@ def control_types_family(ctx: t.Any) -> None:
                 except BaseException:  # noqa: BLE001, S112
                     continue
         for crit in (False, True):
-            for v in [None, b"", b"zz", b"\x30\x00"] + [x for x in own if x is not None]:
+            for v in [None, b"", b"zz", b"\x30\x00", b"\x30\x03\x02\x01\x01", b"\x30\x84\x00\x00\x00\x03\x02\x01\x01", b"\x04\x00"] + [x for x in own if x is not None]:
                 for wrap in (lambda c: L.SearchResultDone(3, [c], res), lambda c: L.SearchRequest(4, [L.LDAPControl("1.2", False, None), c], "", L.SearchScope.BASE, L.DereferencingPolicy.NEVER, 0, 0, False, L.FilterPresent("a"), [])):
                     sent = L.LDAPControl(ct, crit, v)
                     m = wrap(sent)
